@@ -52,7 +52,10 @@ def setup():
     cs = [c.copy(c.ID, CAS=c.CAS) for c in chems]
     cs[0].Cn.l.add_method(80.0); cs[0].V.l.add_method(2e-5)
     t3 = tmo.Thermo(tmo.Chemicals(cs), cache=False)
-    THERMOS[:] = [t1, t2, t3]
+    # the SAME compiled chemicals object as t1 under another mixture model (excess energies included): a package
+    # change (or `copy(thermo=)`) that leaves the chemicals object, flows, phase, T, P and composition keys untouched
+    t4 = tmo.Thermo(chems, mixture=tmo.IdealMixture.from_chemicals(chems, include_excess_energies=True), cache=False)
+    THERMOS[:] = [t1, t2, t3, t4]
     tmo.settings.set_thermo(t1)
     # count real evaluations of the mixture functions: methods of the mixture class (H, S, xH, …) are wrapped on
     # the class; properties held as model objects in slots (Cn, V, mu, kappa, …) by wrapping their class's __call__
@@ -211,6 +214,8 @@ def run_ops(ops):
                 w.add(s, 'plain'); emit('new', f'ok {len(w.objs) - 1}')
             elif op == 'copy':
                 w.add(w.objs[int(t[1])].copy(), 'copy'); emit('new', f'ok {len(w.objs) - 1}')
+            elif op == 'copythermo':
+                w.add(w.objs[int(t[1])].copy(thermo=THERMOS[int(t[2])]), 'copy'); emit('new', f'ok {len(w.objs) - 1}')
             elif op == 'flowproxy':
                 w.add(w.objs[int(t[1])].flow_proxy(), 'flowproxy'); emit('new', f'ok {len(w.objs) - 1}')
             elif op == 'proxy':
@@ -422,12 +427,17 @@ def gen_case(rng, length):
         elif r < 0.86 and len(kinds) < 5:
             ops.append(f'flowproxy {o}'); kinds.append(kinds[o])
         elif r < 0.88 and len(kinds) < 5:
-            ops.append(f'copy {o}'); kinds.append(kinds[o])
+            if rng.random() < 0.5: ops.append(f'copy {o}')
+            else: ops.append(f'copythermo {o} {rng.choice([3, 3, 0, 2])}')
+            kinds.append(kinds[o])
+            if last_read and last_read[0] == o and rng.random() < 0.7:
+                # read on the copy what was last read on the original, before anything else changes
+                ops.append(f'read {len(kinds) - 1} {last_read[1]}')
         elif r < 0.91 and len(kinds) >= 2:
             a = rng.randrange(len(kinds))
             ops.append(f'link {o} {a} {rng.randrange(2)} {rng.randrange(2)} {rng.randrange(2)}')
         elif r < 0.93: ops.append(f'unlink {o}')
-        elif r < 0.95: ops.append(f'thermo {o} {rng.choice([0, 1, 2, 2, 0])}')
+        elif r < 0.95: ops.append(f'thermo {o} {rng.choice([0, 1, 2, 2, 0, 3, 3])}')
         elif r < 0.975 and kinds[o] == 'multi' and len(kinds) < 6:
             ops.append(f'view {o} {rng.choice("lg")}'); kinds.append('view')
         elif kinds[o] == 'multi':
@@ -448,6 +458,7 @@ def corpus():
         # the proxy history of DESIGN.md §8 #10
         Case(['new single 0 298.15 101325.0 l 1,2,0,0,0,0,0,0,0,0', 'read 0 H', 'proxy 0', 'setT 1 350.0', 'read 1 H',
               'setT 1 298.15', 'read 0 H']),
+        Case(['new single 0 320.0 101325.0 g 1,2,0,0,0,0,0,0,0,0', 'read 0 H', 'copythermo 0 3', 'read 1 H', 'thermo 0 3', 'read 0 H']),
         Case(['new multi 0 320.0 101325.0 lg 1,2,0,3,0,0,0,0,0,0', 'read 0 H', 'view 0 l', 'read 1 H', 'viewflow 0 l 0 5.5',
               'read 0 H', 'read 1 H', 'setphases 0 lLg', 'read 0 H', 'read 1 H']),
         Case(['new single 0 298.15 101325.0 l 1,2,0,0,0,0,0,0,0,0', 'new single 0 350.0 101325.0 g 0,2,1,0,0,0,0,0,0,0',
@@ -460,7 +471,7 @@ def search(case, rng, budget_s):
     real code near it: every continuation of the history by one or two further reads on every object."""
     import time
     t0 = time.time()
-    nobj = sum(1 for l in case.ops if l.split(' ')[0] in ('new', 'copy', 'flowproxy', 'proxy', 'view'))
+    nobj = sum(1 for l in case.ops if l.split(' ')[0] in ('new', 'copy', 'copythermo', 'flowproxy', 'proxy', 'view'))
     attrs = ATTRS_SINGLE
     prefixes = [case.ops[:n] for n in range(len(case.ops), max(0, len(case.ops) - 4), -1)]
     for pre in prefixes:
